@@ -804,6 +804,22 @@ func (e *containerExec) one(s *CStep) {
 		} else {
 			setData(flipBit(getData(), s.Pos), false)
 		}
+	case "entry_tail":
+		// an entry that is a valid sealed token FOLLOWED by more bytes (a stray zero, a null, a
+		// second sealed token glued on), honestly labelled in a CAR: not a sealed token
+		d := getData()
+		var tail []byte
+		switch s.Pos % 4 {
+		case 0:
+			tail = []byte{0x00}
+		case 1:
+			tail = []byte{0xf6}
+		case 2:
+			tail = append([]byte{}, e.sealed[(idx+1)%len(e.sealed)]...)
+		default:
+			tail = append([]byte{}, d...)
+		}
+		setData(append(append([]byte{}, d...), tail...), true)
 	case "foreign_entry":
 		d := cbArray(cbBytes([]byte{1, 2, 3}), cbMap(cbText("h"), cbBytes([]byte{0x34}), cbText("x"), cbInt(int64(s.Pos)))).Encode()
 		if s.Pos%2 == 0 {
@@ -1156,7 +1172,7 @@ func genContainer(r *Rand, g GenCfg) Plan {
 	for i := r.Range(1, 3); i > 0; i-- {
 		p.Steps = append(p.Steps, CStep{Op: "roundtrip", Format: Pick(r, containerAPIs()), WStream: r.Chance(0.5), RStream: r.Chance(0.5), Chunks: mkChunks(), Perm: r.Perm(n)})
 	}
-	faults := []string{"bad_frame", "hostile_len", "data_flip", "data_flip", "data_flip_relabel", "data_flip_relabel", "cid_flip", "swap_cids", "foreign_entry", "dup_entry", "drop_byte", "len_flip", "version_flip", "trunc", "trailing", "text_flip", "edge_trunc", "edge_trunc", "edge_bad", "edge_bad", "alias_cid", "alias_cid", "weak_label", "weak_label"}
+	faults := []string{"bad_frame", "hostile_len", "data_flip", "data_flip", "data_flip_relabel", "data_flip_relabel", "cid_flip", "swap_cids", "foreign_entry", "dup_entry", "drop_byte", "len_flip", "version_flip", "trunc", "trailing", "text_flip", "edge_trunc", "edge_trunc", "edge_bad", "edge_bad", "alias_cid", "alias_cid", "weak_label", "weak_label", "entry_tail", "entry_tail"}
 	for i := r.Range(2, 12); i > 0; i-- {
 		pos := r.Intn(1 << 13)
 		if r.Chance(0.3) {
